@@ -561,7 +561,7 @@ agreement theorem of that name, an edit that leaves the translator's subset make
 theorem c08_translation_agrees_check_circuit (cfg : Cfg) (now : Nat) (b : Breaker) :
     Tr.check_circuit cfg now b = checkCircuit cfg now b := by
   obtain ⟨cs, f, su, lf, ls, tr, te⟩ := b
-  cases cs <;> cases lf <;> simp [Tr.check_circuit, checkCircuit, elapsedOk] <;> (repeat' split) <;> simp_all
+  cases cs <;> cases lf <;> simp [Tr.check_circuit, checkCircuit, elapsedOk] <;> (repeat' split) <;> simp_all <;> omega
 
 theorem c08_translation_agrees_record_success (cfg : Cfg) (now : Nat) (b : Breaker) :
     Tr.record_success cfg now b = recordSuccess now b := by
